@@ -128,6 +128,11 @@ class ShapeEval:
                     return self.ev(b, t[3][0], env)
                 if adt == "scale_info::ty::TypeDefTuple":
                     raise Unrecognised("TypeDefTuple built directly (bypasses the phantom filter of TypeDefTuple::new)")
+                if adt == "scale_info::build::Variants" and "variants" in (t[2].get("fields") or ()):
+                    # a private constructor of the empty accumulator (`Variants::with_capacity(n)`): the same state as Variants::new()
+                    v0 = unref(t[3][list(t[2]["fields"]).index("variants")])
+                    if v0[0] == "call" and v0[1]["name"] in ("alloc::vec::Vec::new", "alloc::vec::Vec::with_capacity", "core::default::Default::default"):
+                        return {"k": "variants", "variants": []}
                 raise Unrecognised("direct construction of %s in type_info" % adt)
             raise Unrecognised("aggregate %s in type_info" % t[1])
         if k == "str":
